@@ -45,6 +45,9 @@ Proof. intros H. unfold B64Ops. cbn [nofZ FlOps]. apply rnd64_int, H. Qed.
 Lemma B64_one : nofZ B64Ops 1 = n_one B64Ops.
 Proof. rewrite nofZ_b64 by (simpl; lia). reflexivity. Qed.
 
+Lemma B64_comm : forall a b : R, nmul B64Ops a b = nmul B64Ops b a.
+Proof. intros a b. unfold B64Ops. cbn [nmul FlOps]. unfold fl_mul. rewrite Rmult_comm. reflexivity. Qed.
+
 Lemma rnd64_mono x y : x <= y -> rnd64 x <= rnd64 y.
 Proof. apply rnd_le; exact prec53_os. Qed.
 
@@ -171,6 +174,28 @@ Proof.
   pose proof (bpow_gt_0 radix2 (-53)). nra.
 Qed.
 
+(* (a) for every history: the integer sum is below 2^53 in magnitude and every integer->double conversion of the
+   average formula, and the product double(multiplier_) * data_.size(), is exact *)
+Lemma conversions_exact_b64 W h (m : Z) : (0 < W)%nat -> (W <= 64)%nat -> (0 < m <= 1000000)%Z ->
+  Forall (fun x => (Z.abs x <= 100000000)%Z) (since_reset h []) ->
+  let s := fold_left i_step h (o_init W) in
+  let n := Z.of_nat (length (o_data s)) in
+  (Z.abs (o_sum s) < 2 ^ 53)%Z /\
+  nofZ B64Ops (o_sum s) = IZR (o_sum s) /\ nofZ B64Ops m = IZR m /\ nofZ B64Ops n = IZR n /\
+  nmul B64Ops (nofZ B64Ops m) (nofZ B64Ops n) = IZR (m * n).
+Proof.
+  intros HW0 HW Hm HB s n.
+  destruct (window_is_last_W W h HW0) as (_ & V2 & V3 & _ & _). fold s in V2, V3.
+  assert (Hn : (0 <= n <= 64)%Z) by (unfold n; lia).
+  assert (P53 : (2 ^ 53 = 9007199254740992)%Z) by reflexivity.
+  assert (Hs53 : (Z.abs (o_sum s) < 2 ^ 53)%Z).
+  { rewrite V3. pose proof (zsum_bound _ 100000000 ltac:(lia) (Forall_skipn _ (length (since_reset h []) - W) _ HB)) as Bd.
+    fold (lastn W (since_reset h [])) in Bd. rewrite lastn_length in Bd. nia. }
+  split; [exact Hs53|]. rewrite (nofZ_b64 _ Hs53), (nofZ_b64 m), (nofZ_b64 n) by lia.
+  repeat split. unfold B64Ops. cbn [nmul FlOps]. unfold fl_mul. change (frnd 53 (-1074)) with rnd64.
+  rewrite <- mult_IZR. apply rnd64_int. nia.
+Qed.
+
 (* the formula of the code in binary64: conversions and the product in the denominator are exact *)
 Lemma average_b64_unf (m : Z) s : (0 < m)%Z -> o_data s <> [] ->
   (m * Z.of_nat (length (o_data s)) < 2 ^ 53)%Z -> (Z.abs (o_sum s) < 2 ^ 53)%Z ->
@@ -249,7 +274,7 @@ Proof.
   assert (Hm53 : (Z.abs mult < 2 ^ 53)%Z).
   { assert (1000000 < 2 ^ 53)%Z by (simpl; lia). lia. }
   pose proof (values_ops_bounded mult ops Hm53 Hv) as Hops.
-  destruct (avg_code_model B64Ops B64_one p W ops HW0 HW Hops) as [Hrel Hmc]. fold mult c in Hrel, Hmc.
+  destruct (avg_code_model B64Ops B64_one B64_comm p W ops HW0 HW Hops) as [Hrel Hmc]. fold mult c in Hrel, Hmc.
   pose proof (tie_avg_getAverage B64Ops c _ Hrel) as G. rewrite Hmc in G. rewrite G.
   set (h := map (trunc_op B64Ops mult) ops) in *.
   destruct (window_is_last_W W h HW0) as (_ & V2 & _). fold L in V2.
@@ -549,7 +574,7 @@ Proof.
   { assert (1000000 < 2 ^ 53)%Z by (simpl; lia). lia. }
   assert (Hm32 : in_s32 mult) by (unfold in_s32; lia).
   pose proof (values_ops_bounded mult ops Hm53 Hv) as Hops.
-  destruct (var_code_window B64Ops B64_one p W ops HW0 HW Hm32 Hops) as (_ & _ & _ & _ & _ & _ & Gv & _).
+  destruct (var_code_window B64Ops B64_one B64_comm p W ops HW0 HW Hm32 Hops) as (_ & _ & _ & _ & _ & _ & Gv & _).
   fold mult c in Gv. rewrite Gv.
   apply (variance_b64_history W (map (trunc_op B64Ops mult) ops) mult HW2 HW ltac:(lia)); [|exact Hfull].
   apply since_reset_bounded; [exact Hops|constructor].
